@@ -20,6 +20,7 @@
              payload_ok dom x := x is nil, or its octets are < 256 and dom (length x)
    "key and message are never modified": all functions here are pure functions returning new values; on
    the implementation this is checked by the harnesses of the three parts. *)
+From NV Require C19.Globals.
 From NV Require Import Lib.Base CAES.Util CAES.Proofs_aes CAES.Proofs C08.Glue.
 Open Scope N_scope.
 
@@ -135,6 +136,14 @@ Example C08_example_invalid :
   NASEncrypt 0 ex_k 0xfa556b26 3 1 (Some ex_p) = (Ok tt, Some ex_p).
 Proof. vm_compute. repeat split. Qed.
 
+(* the functions this property is about are functions of their arguments: the files it is anchored in declare
+   no package-level variable other than the pinned read-only tables (or a never-touched one of plain type) and
+   none of their functions writes, slices, takes the address of, passes on or calls a method of a
+   package-level variable (logger entries excepted) -- evaluated on the current source (C19/Globals.v) *)
+Theorem C08_anchor_files_keep_no_state :
+  Globals.hidden_state_free Globals.anchors_C08 = true.
+Proof. vm_compute. reflexivity. Qed.
+
 Print Assumptions C08_length.
 Print Assumptions C08_success_iff.
 Print Assumptions C08_involution.
@@ -144,3 +153,4 @@ Print Assumptions C08_null.
 Print Assumptions C08_validation.
 Print Assumptions C08_mac_len4.
 Print Assumptions C08_total.
+Print Assumptions C08_anchor_files_keep_no_state.
